@@ -145,7 +145,7 @@ def beyond_xlsx_columns(solution, limit=16000):
 
 
 def run_case(driver, script, rng, use_z3=True, what=("df", "excel", "gantt", "json", "smt"), stats=None):
-    cal = rng.choice([(None, None), (None, None), (60, None), (3600, 86400)])
+    cal = rng.choice([(None, None), (None, None), (60, None), (3600, 86400), (86400, None), (129600, 3600)])
     real = pslib.Real()
     real.run(solch.problem_decl(script, cal))
     driver.reset()
